@@ -37,6 +37,7 @@ type fakePeer struct {
 	cutConn  int
 	partial  int // frames cut in the middle
 	live     []net.Conn
+	stall    bool // stop reading after the first complete frame (the peer is alive but does not drain its socket)
 }
 
 // finAll closes every connection the peer holds in an orderly way (FIN), as a process that exits
@@ -159,6 +160,14 @@ func (p *fakePeer) handle(c net.Conn, n int) {
 				p.got = append(p.got, x.Seq)
 				p.mu.Unlock()
 			}
+		}
+		p.mu.Lock()
+		st := p.stall
+		p.mu.Unlock()
+		if st {
+			// keep the connection open without reading: the sender's socket buffer fills up
+			time.Sleep(4 * time.Second)
+			return
 		}
 		if limit >= 0 && read >= limit {
 			if tc, ok := c.(*net.TCPConn); ok {
@@ -283,6 +292,42 @@ func rmScenario(name string) (string, string) {
 		if len(got) != 2 || got[0] != 1 {
 			return fmt.Sprintf("RECOVER: once the peer was reachable again, messages 1 and 2 should have been delivered; the peer received %v (dead letters %v)", got, lg.deadSeqs()), ""
 		}
+	case strings.HasPrefix(name, "stall"):
+		// established connection, then the peer stops draining its socket and finally resets it: every Tell must
+		// still return at once (the caller is typically an actor's own goroutine)
+		p, err := newFakePeer(peerAddr)
+		if err != nil {
+			return "", ""
+		}
+		defer p.ln.Close()
+		p.mu.Lock()
+		p.stall = true
+		p.mu.Unlock()
+		tell(0)
+		time.Sleep(100 * time.Millisecond)
+		var worst time.Duration
+		big := make([]byte, 1<<20)
+		for i := int64(1); i <= 40; i++ {
+			t0 := time.Now()
+			sys.Tell(target, &fbMsg{Seq: i, Pad: big})
+			if d := time.Since(t0); d > worst {
+				worst = d
+			}
+		}
+		p.resetAll()
+		p.ln.Close()
+		for i := int64(41); i <= 44; i++ {
+			t0 := time.Now()
+			sys.Tell(target, &fbMsg{Seq: i, Pad: []byte{1}})
+			if d := time.Since(t0); d > worst {
+				worst = d
+			}
+			time.Sleep(5 * time.Millisecond)
+		}
+		rmDetail = fmt.Sprintf("worst=%v", worst.Round(time.Millisecond))
+		if worst > 100*time.Millisecond {
+			return fmt.Sprintf("TELL-BLOCKS: Tell over an established connection whose peer stalled and was then reset blocked the caller for %v (writes and reconnect back-off must not run in the caller's goroutine)", worst.Round(time.Millisecond)), ""
+		}
 	case strings.HasPrefix(name, "cut"):
 		// healthy connection, cut (RST) in the middle of / right after a frame; later messages reconnect
 		p, err := newFakePeer(peerAddr)
@@ -355,7 +400,7 @@ func (e *remoteEngine) Exec(line string) (string, string) {
 
 func (e *remoteEngine) Generate(c *Ctx) {
 	c.Guard = true // a fatal runtime error in the real code leaves the op in pending.txt
-	for _, sc := range []string{"refused", "refused-limit0", "recover", "cut-mid", "cut-prefix", "cut-mid-limit0"} {
+	for _, sc := range []string{"refused", "refused-limit0", "recover", "cut-mid", "cut-prefix", "cut-mid-limit0", "stall"} {
 		c.Case("rm " + sc)
 		c.R.Nontrivial()
 		c.R.Hit("rm:" + sc)
